@@ -9,7 +9,9 @@ package main
 
 import (
 	"context"
+	"errors"
 	"fmt"
+	"io"
 	"math/rand"
 	"strings"
 	"sync"
@@ -83,17 +85,27 @@ func dataPlaneScenario(rng *rand.Rand, rounds int) {
 	var lastDelivered int64 = -1
 	var nDelivered int64
 	commitEvery := 1 + rng.Intn(3)
+	useRead := rng.Intn(3) == 0
 	appDone := make(chan struct{})
 	go func() { // the application
 		defer close(appDone)
 		for {
-			m, err := r.FetchMessage(ctx)
+			var m kafka.Message
+			var err error
+			if useRead { // ReadMessage = FetchMessage + synchronous CommitMessages of that message
+				m, err = r.ReadMessage(ctx)
+				if err != nil && ctx.Err() == nil && !errors.Is(err, io.EOF) {
+					continue // the commit failed (e.g. stale generation): the message was handed out nevertheless? no: it is not returned
+				}
+			} else {
+				m, err = r.FetchMessage(ctx)
+			}
 			if err != nil {
 				return
 			}
 			kafka.VerifGroupEmit("H.Deliver", 0, "t/0", m.Offset)
 			atomic.StoreInt64(&lastDelivered, m.Offset)
-			if n := atomic.AddInt64(&nDelivered, 1); n%int64(commitEvery) == 0 {
+			if n := atomic.AddInt64(&nDelivered, 1); !useRead && n%int64(commitEvery) == 0 {
 				cctx, ccancel := context.WithTimeout(ctx, 2*time.Second)
 				r.CommitMessages(cctx, m)
 				ccancel()
@@ -185,6 +197,10 @@ func dataPlaneScenario(rng *rand.Rand, rounds int) {
 			}
 		case "H.Deliver":
 			toks = append(toks, "deliver:0:"+a[2])
+		case "RF.Accept":
+			if useRead && a[5] != "true" { // ReadMessage mode: the Reader took the record (its commit precedes the return)
+				toks = append(toks, "taken:0:"+a[4])
+			}
 		case "S.Commit":
 			if a[1] != "-" {
 				toks = append(toks, fmt.Sprintf("commit:0:%s:%s", a[1][strings.LastIndex(a[1], "@")+1:], b01(a[2])))
